@@ -274,10 +274,16 @@ def do_setup() -> int:
             traceback.print_exc()
             rc = 1
             continue
+        try:
+            qspec = load_spec(prop, "quick", 0)
+            qworkers = {u.name: u.workers for u in qspec.units}
+        except Exception:
+            qworkers = {}
         for unit in spec.units:
             if unit.name in seen:
                 continue
             seen.add(unit.name)
+            unit.workers = max(unit.workers, qworkers.get(unit.name, 0))  # worker target dirs for both tiers
             workroot = core.SCRATCH / "setup"
             gen_dir = workroot / unit.name
             shutil.rmtree(gen_dir, ignore_errors=True)
